@@ -1796,7 +1796,11 @@ func (m *repoManager) makeMaster(newMasterUUID dvid.UUID, oldMasterBranchName st
 		newMasterNode = childNode
 	}
 
-	return r.save()
+	// save() takes the repo's read lock itself and RWMutex is not reentrant.
+	r.RUnlock()
+	err = r.save()
+	r.RLock()
+	return err
 }
 
 // newVersion creates a new version as a child of the given parent.  If the
@@ -2759,15 +2763,16 @@ func (r *repoT) saveToStore(db storage.OrderedKeyValueDB) error {
 	if db == nil {
 		return fmt.Errorf("cannot save repo to nil store")
 	}
-	r.RLock()
 	compression, err := dvid.NewCompression(dvid.LZ4, dvid.DefaultCompression)
 	if err != nil {
 		return err
 	}
+	// GobEncode takes the repo's read lock; RWMutex is not reentrant so don't hold it here.
 	serialization, err := dvid.Serialize(r, compression, dvid.CRC32)
 	if err != nil {
 		return err
 	}
+	r.RLock()
 	tk := r.id.Bytes()
 	r.RUnlock()
 
